@@ -1261,4 +1261,288 @@ theorem inv_reachable' (c : Cfg) (hn : 0 < c.n) (s : State) (h : Reachable c s) 
   | init => exact inv_init' c hn
   | step _ he ih => exact inv_step' c _ _ ih he
 
+
+/-! ### consequences -/
+
+theorem count_allOuts (c : Cfg) (o : Nat) : (allOuts c).count o = sumOver (fun x => x.outs.count o) c.items := by
+  unfold allOuts
+  induction c.items with
+  | nil => simp
+  | cons y ys ih => simp [List.flatMap_cons, List.count_append, ih]
+
+theorem mem_errs_of_pos (items : List ItemSpec) (e : Nat) (h : 0 < sumOver (fun x => x.err.toList.count e) items) :
+    e ∈ items.filterMap (·.err) := by
+  induction items with
+  | nil => simp at h
+  | cons y ys ih =>
+    simp only [sumOver_cons] at h
+    cases hy : y.err with
+    | none =>
+      simp [hy] at h
+      have := ih h
+      simp [hy] at this ⊢; exact this
+    | some e' =>
+      by_cases he : e' = e
+      · simp [hy, he]
+      · simp [hy, he] at h
+        have := ih h
+        simp [hy] at this ⊢; right; exact this
+
+theorem mem_allErrs_of_pos (c : Cfg) (e : Nat) (h : 0 < sumOver (fun x => x.err.toList.count e) c.items) :
+    e ∈ allErrs c := mem_errs_of_pos c.items e h
+
+theorem allErrs_nil_iff (c : Cfg) : allErrs c = [] ↔ ∀ x ∈ c.items, x.err = none := by
+  unfold allErrs
+  induction c.items with
+  | nil => simp
+  | cons y ys ih =>
+    cases hy : y.err with
+    | none => simp [hy, ih]
+    | some e => simp [hy]
+
+theorem excs_sub {c : Cfg} {s : State} (hI : Inv c s) : ∀ e ∈ s.excs, e ∈ allErrs c := by
+  intro e he
+  apply mem_allErrs_of_pos
+  have := hI.errC e
+  have hc : 0 < s.excs.count e := List.count_pos_iff.2 he
+  simp only [errTotal] at this
+  omega
+
+theorem recv_sub {c : Cfg} {s : State} (hI : Inv c s) (o : Nat) : s.recv.count o ≤ (allOuts c).count o := by
+  rw [count_allOuts]
+  have := hI.outC o
+  simp only [outTotal] at this
+  omega
+
+/-- what a finished, not abandoned call has delivered -/
+theorem finished' {c : Cfg} {s : State} (hI : Inv c s) (hd : s.main = .done) (hab : s.abandoned = false) :
+    (s.excs = [] → s.recv.Perm (allOuts c) ∧ allErrs c = []) ∧ (∀ e ∈ s.excs, e ∈ allErrs c) := by
+  refine ⟨?_, excs_sub hI⟩
+  intro hex
+  have := (hI.fin (by simp [State.active, hd]) hab).2 hex
+  refine ⟨?_, (allErrs_nil_iff c).2 this.2⟩
+  rw [List.perm_iff_count]
+  intro o
+  rw [count_allOuts]; exact this.1 o
+
+theorem exactly_once' (c : Cfg) (hn : 0 < c.n) (s : State) (hr : Reachable c s) (hd : s.main = .done)
+    (hab : s.abandoned = false) (hne : ∀ x ∈ c.items, x.err = none) :
+    ∃ outs, outcome s = .ok outs ∧ outs.Perm (allOuts c) := by
+  have hI := inv_reachable' c hn s hr
+  have hf := finished' hI hd hab
+  have hnil : allErrs c = [] := (allErrs_nil_iff c).2 hne
+  have hex : s.excs = [] := by
+    cases he : s.excs with
+    | nil => rfl
+    | cons e es =>
+      have := hf.2 e (by simp [he])
+      rw [hnil] at this; simp at this
+  refine ⟨s.recv, ?_, (hf.1 hex).1⟩
+  simp [outcome, hab, hex]
+
+theorem error_surfaces' (c : Cfg) (hn : 0 < c.n) (s : State) (hr : Reachable c s) (hd : s.main = .done)
+    (hab : s.abandoned = false) (x : ItemSpec) (hx : x ∈ c.items) (hxe : x.err ≠ none) :
+    ∃ e outs, outcome s = .raised e outs ∧ e ∈ allErrs c := by
+  have hI := inv_reachable' c hn s hr
+  have hf := finished' hI hd hab
+  cases he : s.excs with
+  | nil =>
+    have := (allErrs_nil_iff c).1 (hf.1 he).2 x hx
+    exact absurd this hxe
+  | cons e es =>
+    exact ⟨e, s.recv, by simp [outcome, hab, he], hf.2 e (by simp [he])⟩
+
+/-- a normal return means: everything delivered, and no item raised (nothing dropped silently) -/
+theorem ok_complete' (c : Cfg) (hn : 0 < c.n) (s : State) (hr : Reachable c s) (hd : s.main = .done)
+    (outs : List Nat) (ho : outcome s = .ok outs) : outs.Perm (allOuts c) ∧ allErrs c = [] := by
+  have hI := inv_reachable' c hn s hr
+  simp only [outcome] at ho
+  split at ho
+  · simp at ho
+  · rename_i hab
+    have hab : s.abandoned = false := by simpa using hab
+    split at ho
+    · simp at ho
+    · rename_i hex
+      simp at ho; subst ho
+      exact (finished' hI hd hab).1 hex
+
+theorem raised_genuine' (c : Cfg) (hn : 0 < c.n) (s : State) (hr : Reachable c s)
+    (e : Nat) (outs : List Nat) (ho : outcome s = .raised e outs) : e ∈ allErrs c := by
+  have hI := inv_reachable' c hn s hr
+  simp only [outcome] at ho
+  split at ho
+  · simp at ho
+  · split at ho
+    · rename_i e' es hex
+      simp at ho
+      exact excs_sub hI e (by rw [hex, ← ho.1]; simp)
+    · simp at ho
+
+theorem never_duplicated' (c : Cfg) (hn : 0 < c.n) (s : State) (hr : Reachable c s) (o : Nat) :
+    s.recv.count o ≤ (allOuts c).count o := recv_sub (inv_reachable' c hn s hr) o
+
+theorem max_tasks' (c : Cfg) (hn : 0 < c.n) (hm : 0 < c.m) (s : State) (hr : Reachable c s)
+    (w k : Nat) (p : List Nat) (e : Option Nat) (h : s.ws[w]? = some (.run k p e)) : k ≤ c.m :=
+  (inv_reachable' c hn s hr).maxk hm w k p e h
+
+/-- a live lineage either has an enabled step of its own, or is parked on an empty in_queue -/
+theorem worker_progress (c : Cfg) (s : State) (w : Nat) (x : W) (hw : s.ws[w]? = some x)
+    (hm : s.main ≠ .waitEvent) :
+    (∃ a, a ≠ Action.cAbandon ∧ enabled c s a = true) ∨ x = .dead ∨
+      (∃ k, x = .run k [] none ∧ s.inq = []) := by
+  cases x with
+  | spawned =>
+    left; refine ⟨.wBegin w, by simp, ?_⟩
+    simp [enabled, hw, hm]
+  | dead => right; left; rfl
+  | exited p e =>
+    left; refine ⟨.wCallback w, by simp, ?_⟩
+    simp [enabled, hw]
+  | run k pend e =>
+    cases pend with
+    | cons o rest =>
+      left; refine ⟨.wPut w, by simp, ?_⟩
+      simp [enabled, hw]
+    | nil =>
+      cases e with
+      | some e =>
+        left; refine ⟨.wRaise w, by simp, ?_⟩
+        simp [enabled, hw]
+      | none =>
+        cases hk : mayTake c k with
+        | false =>
+          left; refine ⟨.wRetire w, by simp, ?_⟩
+          simp [enabled, hw, hk]
+        | true =>
+          cases hq : s.inq with
+          | nil => right; right; exact ⟨k, rfl, rfl⟩
+          | cons y ys =>
+            left; refine ⟨.wGet w, by simp, ?_⟩
+            simp [enabled, hw, hk, hq]
+
+theorem exists_alive {c : Cfg} {s : State} (hI : Inv c s) (h : s.nprocs ≠ 0) :
+    ∃ (w : Nat) (x : W), s.ws[w]? = some x ∧ x ≠ W.dead := by
+  have hnp := hI.np
+  by_cases hall : ∀ x ∈ s.ws, alive x = 0
+  · have := (sumOver_eq_zero alive s.ws).2 hall
+    omega
+  · have hall' : ∃ x, x ∈ s.ws ∧ alive x ≠ 0 := by
+      apply Classical.byContradiction
+      intro hno
+      apply hall
+      intro x hx
+      apply Classical.byContradiction
+      intro hne
+      exact hno ⟨x, hx, hne⟩
+    obtain ⟨x, hx, hxa⟩ := hall'
+    obtain ⟨w, hw⟩ := List.mem_iff_getElem?.1 hx
+    refine ⟨w, x, hw, ?_⟩
+    intro hd; subst hd; simp [alive] at hxa
+
+theorem deadlock_free' (c : Cfg) (hn : 0 < c.n) (s : State) (hr : Reachable c s) (hnd : s.main ≠ .done) :
+    ∃ a, a ≠ Action.cAbandon ∧ enabled c s a = true := by
+  have hI := inv_reachable' c hn s hr
+  cases hm : s.main with
+  | done => exact absurd hm hnd
+  | fin => exact ⟨.mDone, by simp, by simp [enabled, hm]⟩
+  | waitEvent =>
+    cases he : s.event with
+    | true => exact ⟨.mEvent, by simp, by simp [enabled, hm, he]⟩
+    | false =>
+      have := hI.ev hm he
+      exact ⟨.wBegin 0, by simp, by simp [enabled, this]⟩
+  | consuming =>
+    have hact : s.active = true := by simp [State.active, hm]
+    cases hq : s.outq with
+    | cons y ys => exact ⟨.cGet, by simp, by simp [enabled, hm, hq]⟩
+    | nil =>
+      have hnp : s.nprocs ≠ 0 := by
+        intro h0
+        have := hI.q hact h0
+        rw [hq] at this; simp at this
+      obtain ⟨w, x, hw, hxd⟩ := exists_alive hI hnp
+      rcases worker_progress c s w x hw (by rw [hm]; simp) with h | h | ⟨k, hx, hinq⟩
+      · exact h
+      · exact absurd h hxd
+      · -- every live lineage may be parked: then the loader side can move
+        cases hi : s.infl with
+        | some y =>
+          refine ⟨.loadPut, by simp, ?_⟩
+          simp [enabled, hi, hinq, cap]; omega
+        | none =>
+          have hst : s.stopped = false := by simp [State.stopped, hm]
+          cases ht : s.todo with
+          | cons y ys =>
+            exact ⟨.loadTake, by simp, by simp [enabled, hi, hst, ht]⟩
+          | nil =>
+            cases hl : s.lphase with
+            | false => exact ⟨.loadFinish, by simp, by simp [enabled, hl, hi, ht]⟩
+            | true =>
+              have hp := hI.pills hact hl
+              rw [hinq, hi, ht] at hp
+              simp at hp
+              have h1 := sumOver_le_of_mem needy s.ws x (mem_of_getElem? hw)
+              subst hx
+              simp [needy] at h1
+              omega
+
+theorem reachable_of_run (c : Cfg) (s s' : State) (tr : List Action) (hs : Reachable c s)
+    (h : runTrace c s tr = some s') : Reachable c s' := by
+  induction tr generalizing s with
+  | nil => simp [runTrace] at h; subst h; exact hs
+  | cons a as ih =>
+    simp only [runTrace] at h
+    split at h
+    · rename_i he; exact ih _ (Reachable.step hs he) h
+    · simp at h
+
+/-- a run that cannot be extended (except by the caller abandoning) has finished the call -/
+theorem reaches_done' (c : Cfg) (hn : 0 < c.n) (tr : List Action) (s : State)
+    (h : runTrace c (init c) tr = some s)
+    (hstuck : ∀ a, a ≠ Action.cAbandon → enabled c s a = false) : s.main = .done := by
+  have hr := reachable_of_run c _ _ tr Reachable.init h
+  cases hm : s.main with
+  | done => rfl
+  | _ =>
+    all_goals
+      obtain ⟨a, ha, he⟩ := deadlock_free' c hn s hr (by rw [hm]; simp)
+      rw [hstuck a ha] at he; simp at he
+
+/-! ### in-process path -/
+
+theorem inproc_ok' (items : List ItemSpec) (h : ∀ x ∈ items, x.err = none) :
+    inproc items = (items.flatMap (·.outs), none) := by
+  induction items with
+  | nil => rfl
+  | cons y ys ih =>
+    have hy := h y (by simp)
+    have := ih (fun x hx => h x (by simp [hx]))
+    simp [inproc, hy, this]
+
+theorem inproc_err' (items : List ItemSpec) (x : ItemSpec) (hx : x ∈ items) (hxe : x.err ≠ none) :
+    ∃ e, (inproc items).2 = some e ∧ e ∈ items.filterMap (·.err) := by
+  induction items with
+  | nil => simp at hx
+  | cons y ys ih =>
+    cases hy : y.err with
+    | some e => exact ⟨e, by simp [inproc, hy], by simp [hy]⟩
+    | none =>
+      simp at hx
+      rcases hx with hx | hx
+      · subst hx; exact absurd hy hxe
+      · obtain ⟨e, h1, h2⟩ := ih hx
+        refine ⟨e, by simp [inproc, hy, h1], ?_⟩
+        simp [hy] at h2 ⊢; exact h2
+
+theorem inproc_sublist' (items : List ItemSpec) : (inproc items).1.Sublist (items.flatMap (·.outs)) := by
+  induction items with
+  | nil => simp [inproc]
+  | cons y ys ih =>
+    cases hy : y.err with
+    | some e => simp [inproc, hy]
+    | none =>
+      simp only [inproc, hy, List.flatMap_cons]
+      exact List.Sublist.append (List.Sublist.refl _) ih
+
 end Coba.C08
